@@ -21,6 +21,10 @@ def volumetricDrivingForce(therm: GeneralThermodynamics, x, T, precipitate: Prec
     '''
     x, T = _process_xT_arrays(x, T, therm.numElements == 2)
     chemDGs, betaComp = therm.getDrivingForce(x, T, precPhase=precipitate.phase, removeCache=removeCache)
+    #If the equilibrium calculation failed, the driving force is None (no result)
+    #Pass this on so that the caller can keep its last valid values
+    if chemDGs is None or np.any(np.equal(chemDGs, None)):
+        return None, None, None
     volDGs = chemDGs / precipitate.volume.Vm
     volDGs -= precipitate.strainEnergy.compute(precipitate.shapeFactor.description.normalRadii(aspectRatio))
 
